@@ -10,7 +10,7 @@ D6 proof stamps: only an earned SRTLA ACK and an answered keepalive (shared with
 D7 "heard from again" must mean this link: the pull's release predicate may read only state that no cross-link (broadcast) handler can write.
 """
 from ..ctx import full_slice_element, CONN, is_call, is_field, is_iter_next, sname
-from ..expr import show, walk
+from ..expr import show, strip_old, walk
 from ..pathcond import PathA, calls_to, field_stores
 from . import C03, C05
 
@@ -209,6 +209,19 @@ def d4_continuity(ctx):
         ctx.WHO_CALLS("D4", USP, {C03.GATE}, floor=1)
 
 
+def _spoke(pa):
+    """(formula, atom expr) of `the link spoke within the silence window`: last_received is Some(lr) & now - lr < silence_pull_window_ms(..)
+    (whatever the source form: is_some_and(closure), match, if let - std combinators are expanded by the path analysis)."""
+    lr = fld("last_received")
+    payload = ("field", ("as", lr, "Some"), "core::option::Option", "0")
+    lt = pa.find(lambda a: a[0] == "bin" and a[1] == "Lt" and is_call(strip_old(a[2]), name_contains="saturating_sub") and strip_old(a[2])[2][0] == NOW and
+                 strip_old(strip_old(a[2])[2][1]) == payload and is_call(strip_old(a[3]), stable=CONN + "::silence_pull_window_ms"))
+    if len(lt) != 1:
+        return None, None
+    some = pa.bdd.NOT(pa.is_atom(("is", lr, "None")))
+    return pa.bdd.AND(some, lt[0][1]), lt[0][0]
+
+
 def d5_silence_pull(ctx):
     f = ctx.fn(USP, "D5")
     if not f:
@@ -216,7 +229,8 @@ def d5_silence_pull(ctx):
     pa = ctx.pa(f)
     b = pa.bdd
     silent = pa.find(lambda a: is_call(a, stable=CONN + "::is_briefly_silent") and a[2][0] == S)
-    spoke = pa.find(lambda a: is_call(a, name_contains="Option::<T>::is_some_and") and is_field(a[2][0], "last_received", CONN))
+    spoke_f, spoke_atom = _spoke(pa)
+    spoke = [(spoke_atom, spoke_f)] if spoke_f is not None else []
     conn = pa.lit(fld("connected"))
     if not silent or not spoke:
         ctx.chk.missing("D5", "update_silence_pull: is_briefly_silent / spoke tests", "%d / %d" % (len(silent), len(spoke)))
@@ -232,18 +246,9 @@ def d5_silence_pull(ctx):
         else:
             ctx.chk.ob("D5", "silence_pulled stores are constants", False, show(v), key="D5:pull-store-shape", loc=s.get("loc"))
     ctx.WHO_WRITES("D5", CONN, "silence_pulled", {USP, C03.GATE, CONN + "::reset_core_state"}, floor=3, allow_agg_in={CONN + "::new_registering"})
-    # spoke = now - last_received < window, window = silence_pull_window_ms
-    sp = spoke[0][0]
-    cl = sp[2][1]
-    clf = ctx.w.fns.get(cl[2]) if cl[0] == "agg" else None
-    ok = False
-    if clf is not None:
-        cpa = ctx.pa(clf)
-        rt = cpa.ret_true()
-        want = cpa.lit(("bin", "Lt", call(SATSUB, ("upvar", 0), ("param", 2)), ("upvar", 1), "u64"))
-        caps = cl[3]
-        ok = cpa.equivalent(rt, want) and len(caps) == 2 and caps[0] == NOW and is_call(caps[1], stable=CONN + "::silence_pull_window_ms")
-    ctx.chk.ob("D5", "spoke == (now - last_received < silence window)", ok, "", key="D5:spoke-predicate")
+    # spoke = last_received is Some(lr) & now - lr < silence_pull_window_ms(ceiling): the shape _spoke() matched
+    ok = spoke_atom is not None and strip_old(spoke_atom[3])[2][0] == S
+    ctx.chk.ob("D5", "spoke == (now - last_received < silence window)", ok, show(spoke_atom)[:160] if spoke_atom else "", key="D5:spoke-predicate")
     # window formula
     w = ctx.fn(CONN + "::silence_pull_window_ms", "D5")
     if w:
@@ -276,12 +281,12 @@ def d7_release_reads_own_inbound_only(ctx):
     eff = ctx.eff
     pa = ctx.pa(f)
     # what the release predicate reads: `spoke` closure, the window helper, connected
-    spoke = pa.find(lambda a: is_call(a, name_contains="Option::<T>::is_some_and") and is_field(a[2][0], "last_received", CONN))
-    if not spoke:
+    spoke_f, spoke_atom = _spoke(pa)
+    if spoke_atom is None:
         ctx.chk.missing("D7", "update_silence_pull: spoke", "")
         return
     reads = set()
-    for x in walk(spoke[0][0]):
+    for x in walk(spoke_atom):
         if x[0] == "call" and x[4]:
             for g in ctx.w.by_stable.get(x[4], []):
                 reads |= eff.R(g.id)
